@@ -281,7 +281,13 @@ def make_oracle(name):
             if len(ref) % 3 == 0:
                 names.reverse()
             kwargs = {fname: kwargs[fname] for fname in names}
-            packed = net.message.pack(name, **kwargs)
+            try:
+                packed = net.message.pack(name, **kwargs)
+            except TypeError as ex:
+                if core._pycoin_frame(ex.__traceback__) is None:
+                    # raised while binding the arguments: pack's own signature cannot take the declared field names
+                    _bad("msg:%s:pack-cannot-take-declared-fields" % name, "pack(%r, %s) raised TypeError: %s" % (name, ", ".join(names), ex))
+                raise
             state["packed"] = packed
             if packed != ref:
                 i = next((k for k, (a, b) in enumerate(zip(packed, ref)) if a != b), min(len(packed), len(ref)))
